@@ -3,7 +3,7 @@ implementation-level oracle used to search for a concrete failing input."""
 import re
 
 from . import gen_kzg, gen_pc, gen_c16, gen_c13
-from .oracles import pc_honest, pc_mutations, pc_refusals
+from .oracles import pc_honest, pc_mutations, pc_refusals, pc_hiding
 
 
 def _names(*prefixes):
@@ -242,5 +242,11 @@ PROPS = {
         "oracles": [pc_honest, lambda c, lo: pc_mutations(c, lo, ("sponge_pre",))],
         "accept_diffs": ("mut.",),
         "title": "Transcript lock-step",
+    },
+    "C07": {
+        "props_file": "props/C07.v",
+        "flows": [(gen_kzg.gen, "c07", 60, 600), (gen_pc.gen, "c07", 150, 1500)],
+        "oracles": [oracle_c01_kzg, pc_honest, pc_hiding],
+        "title": "Hiding",
     },
 }
